@@ -93,3 +93,211 @@ def seq_async_contract(self, command):
     self._sequence_counter_protocol = p2
     self._sequence_counter_command = c2
     return r
+
+
+# ======================================================= every request kind on the wire
+# Each call site is executed with the REAL counter (any state satisfying the invariant)
+# and the REAL request factory; the sequence byte found in the message bytes must lie in
+# the range of its kind: pack commands 192..255, every other request 1..191.
+from geckolib.async_spa import GeckoAsyncSpa
+from geckolib.spa import GeckoSpa
+from geckolib.driver.protocol.statusblock import (
+    GeckoPartialStatusBlockProtocolHandler, GeckoAsyncPartialStatusBlockProtocolHandler,
+)
+from geckolib.automation.watercare import GeckoWaterCare
+from geckolib.automation.reminders import GeckoReminders
+
+
+class Sent:
+    requests = []
+
+
+@summary("geckolib.driver.async_udp_protocol:GeckoAsyncUdpProtocol.get", name="engine_builds_once",
+         note="engine stand-in (proved in C06): builds the request once")
+async def engine_builds_once(self, create_func, destination=None, retry_count=10):
+    req = create_func()
+    Sent.requests.append(req)
+    return req
+
+
+class ADesc:
+    destination = ("10.0.0.9", 10022)
+    identifier = b"SPAid"
+    client_identifier = b"IOSclient"
+
+
+class LogClass:
+    begin = 256
+    end = 479
+
+
+async def no_event(event, **kwargs):
+    return None
+
+
+def async_spa(p, c):
+    spa = new(GeckoAsyncSpa)
+    spa._observers = []
+    spa.descriptor = ADesc()
+    spa.client_id = b"IOSclient"
+    spa._is_connected = True
+    spa._last_ping = clock_now()
+    spa._event_handler = no_event
+    spa.pack_type = 6
+    spa.config_version = 1
+    spa.log_version = 1
+    spa.log_class = LogClass()
+    spa._protocol = new(GeckoAsyncUdpProtocol, _sequence_counter_protocol=p, _sequence_counter_command=c)
+    return spa
+
+
+def seq_byte(req, verb):
+    """the sequence number as it appears on the wire: first byte after the 5-letter verb"""
+    content = req._content
+    return ite(content[0:5] == verb, byte_at(content, 5), -1)
+
+
+def protocol_range(s):
+    return both(1 <= s, s <= 191)
+
+
+def command_range(s):
+    return both(192 <= s, s <= 255)
+
+
+@harness(prop="C16", target="geckolib.async_spa:GeckoAsyncSpa._get_version_handler_func", uses=["engine_builds_once"],
+         name="async_request_kinds_use_their_range")
+async def async_request_kinds_use_their_range(p: int, c: int, which: int):
+    requires(seq_inv(p, c))
+    requires(both(0 <= which, which <= 9))
+    which = concrete_cases(which, 0, 9)
+    spa = async_spa(p, c)
+    Sent.requests = []
+    if which == 0:
+        r = spa._get_version_handler_func()
+        ensures("version-request-in-protocol-range", protocol_range(seq_byte(r, b"AVERS")))
+    elif which == 1:
+        r = spa._get_channel_handler_func()
+        ensures("channel-request-in-protocol-range", protocol_range(seq_byte(r, b"CURCH")))
+    elif which == 2:
+        r = spa._get_config_file_handler_func()
+        ensures("config-file-request-in-protocol-range", protocol_range(seq_byte(r, b"SFILE")))
+    elif which == 3:
+        r = spa._get_status_block_handler_func()
+        ensures("status-request-in-protocol-range", protocol_range(seq_byte(r, b"STATU")))
+    elif which == 4:
+        r = spa._get_watercare_handler_func()
+        ensures("watercare-request-in-protocol-range", protocol_range(seq_byte(r, b"GETWC")))
+    elif which == 5:
+        r = spa._get_reminders_handler_func()
+        ensures("reminders-request-in-protocol-range", protocol_range(seq_byte(r, b"REQRM")))
+    elif which == 6:
+        await spa.async_set_watercare(1)
+        ensures("set-watercare-in-protocol-range", protocol_range(seq_byte(Sent.requests[0], b"SETWC")))
+    elif which == 7:
+        await spa._on_async_set_value(300, 1, 5)
+        ensures("set-value-command-in-command-range", command_range(seq_byte(Sent.requests[0], b"SPACK")))
+    elif which == 8:
+        await spa.async_press(3)
+        ensures("key-press-command-in-command-range", command_range(seq_byte(Sent.requests[0], b"SPACK")))
+    else:
+        sock = new(GeckoAsyncUdpProtocol, _sequence_counter_protocol=p, _sequence_counter_command=c)
+        sock.transport = None
+        acks = []
+        sock.queue_send = lambda h, d=None: acks.append(h)
+        h = GeckoAsyncPartialStatusBlockProtocolHandler(sock)
+        await h.async_handle(b"STATP\x00", ("10.0.0.9", 10022, b"SPAid", b"IOSclient"))
+        ensures("partial-update-ack-in-protocol-range", both(len(acks) == 1, protocol_range(seq_byte(acks[0], b"STATQ"))))
+    ensures("counters-keep-their-invariant", seq_inv(spa._protocol._sequence_counter_protocol, spa._protocol._sequence_counter_command))
+    cover("reached-end", True)
+
+
+class Queue:
+    sent = []
+    added = []
+
+
+def sync_spa(p, c):
+    spa = new(GeckoSpa)
+    spa._lock = threading.Lock()
+    spa._sequence_counter_protocol = p
+    spa._sequence_counter_command = c
+    spa._send_handlers = []
+    spa._receive_handlers = []
+    spa.descriptor = ADesc()
+    spa.pack_type = 6
+    spa.config_version = 1
+    spa.log_version = 1
+    spa._is_connected = True
+    spa.new_log_class = LogClass()
+    return spa
+
+
+def last_sent(spa):
+    return spa._send_handlers[len(spa._send_handlers) - 1][0]
+
+
+@harness(prop="C16", target="geckolib.spa:GeckoSpa._on_set_value", name="sync_request_kinds_use_their_range")
+def sync_request_kinds_use_their_range(p: int, c: int, which: int):
+    requires(seq_inv(p, c))
+    requires(both(0 <= which, which <= 6))
+    which = concrete_cases(which, 0, 6)
+    spa = sync_spa(p, c)
+    sender = ("10.0.0.9", 10022, b"SPAid", b"IOSclient")
+    if which == 0:
+        spa.press(3)
+        ensures("key-press-command-in-command-range", command_range(seq_byte(last_sent(spa), b"SPACK")))
+    elif which == 1:
+        spa._on_set_value(300, 1, 5)
+        ensures("set-value-command-in-command-range", command_range(seq_byte(last_sent(spa), b"SPACK")))
+    elif which == 2:
+        spa.struct = StructStub()
+        spa.refresh()
+        ensures("status-request-in-protocol-range", protocol_range(seq_byte(spa.struct.request, b"STATU")))
+    elif which == 3:
+        spa._on_version_received(VersionStub(), sender)
+        ensures("channel-request-in-protocol-range", protocol_range(seq_byte(last_sent(spa), b"CURCH")))
+    elif which == 4:
+        spa._on_channel_received(ChannelStub(), sender)
+        ensures("config-file-request-in-protocol-range", protocol_range(seq_byte(last_sent(spa), b"SFILE")))
+    elif which == 5:
+        wc = new(GeckoWaterCare)
+        wc._observers = []
+        wc._spa = spa
+        wc.active_mode = None
+        wc._water_care_handler = None
+        wc.set_mode(2)
+        ensures("set-watercare-in-protocol-range", protocol_range(seq_byte(last_sent(spa), b"SETWC")))
+        wc.update()
+        ensures("watercare-request-in-protocol-range", protocol_range(seq_byte(last_sent(spa), b"GETWC")))
+    else:
+        rm = new(GeckoReminders)
+        rm._spa = spa
+        rm.update()
+        ensures("reminders-request-in-protocol-range", protocol_range(seq_byte(last_sent(spa), b"REQRM")))
+        h = GeckoPartialStatusBlockProtocolHandler(spa)
+        h.handle(b"STATP\x00", sender)
+        ensures("partial-update-ack-in-protocol-range", protocol_range(seq_byte(last_sent(spa), b"STATQ")))
+    ensures("counters-keep-their-invariant", seq_inv(spa._sequence_counter_protocol, spa._sequence_counter_command))
+    cover("reached-end", True)
+
+
+class StructStub:
+    request = None
+
+    def retry_request(self, socket_, request, sender):
+        self.request = request
+
+
+class VersionStub:
+    en_build = 1
+    en_major = 2
+    en_minor = 3
+    co_build = 4
+    co_major = 5
+    co_minor = 6
+
+
+class ChannelStub:
+    channel = 5
+    signal_strength = 50
